@@ -400,5 +400,82 @@ def _closure_is_eq_pending(F, cl):
             from_arg = any(rr[0] == 'param' for a in r[4]['args'] for rr in F.trace(cl, a))
             if has_pending and from_arg and ((nots % 2 == 1) == neg):
                 return True
-    # matches!(*caller, Pending) shape: discriminant switch
+    # matches!(*caller, Pending) shape: a switch on the discriminant of the argument. Decide by partial evaluation: with the
+    # discriminant fixed to each variant in turn, which constant can the closure return?
+    from .. import fdeval
+    blocks = F.blocks(cl)
+    for bi, blk in enumerate(blocks):
+        for st in blk['s']:
+            if st[0] == 'assign' and st[2][0] == 'discr' and len(st[2]) >= 4 and st[2][2] == CP_ADT and not st[1]['p']:
+                src = st[2][1]
+                if not any(rr[0] == 'param' for rr in F.trace(cl, {'copy': {'l': src['l'], 'p': []}})):
+                    continue
+                dl = st[1]['l']
+                variants = {name: int(val) for val, name in st[2][3]}
+                if 'Pending' not in variants:
+                    return False
+                verdict = {}
+                for name, val in variants.items():
+                    # the discriminant is assigned in block bi; fix it from there on by evaluating from the block's successor set
+                    try:
+                        reached = _reach_after_assign(F, cl, bi, dl, val)
+                    except fdeval.Undecidable:
+                        return False
+                    outs = set()
+                    for rb in reached:
+                        for st2 in blocks[rb]['s']:
+                            if st2[0] == 'assign' and st2[1]['l'] == 0 and not st2[1]['p'] and st2[2][0] == 'use' and 'const' in st2[2][1]:
+                                outs.add(st2[2][1]['const'].get('repr'))
+                    verdict[name] = outs
+                return verdict.get('Pending') in ({'true'}, {'const true'}) and all(
+                    v in ({'false'}, {'const false'}) for k, v in verdict.items() if k != 'Pending')
     return False
+
+
+def _reach_after_assign(F, cl, bi, local, val):
+    """blocks reachable from block bi's terminator with `local` = val (the statements of bi after the assignment are constant-free here)"""
+    from .. import fdeval
+    blocks = F.blocks(cl)
+    t = blocks[bi]['t']
+    if t[0] == 'switch':
+        pl = t[1].get('copy') or t[1].get('move')
+        if pl and not pl['p'] and pl['l'] == local:
+            tgt = next((tg for x, tg in t[2] if x == val), t[3])
+            return _reach_from(F, cl, tgt, {local: val})
+    succ = F.cfg(cl).get(bi, [])
+    out = set()
+    for sbb in succ:
+        out |= _reach_from(F, cl, sbb, {local: val})
+    return out
+
+
+def _reach_from(F, cl, start, fixed):
+    from .. import fdeval
+    # reach_with starts at block 0; emulate a start block by a tiny wrapper: explore manually
+    blocks = F.blocks(cl)
+    seen = set()
+    work = [start]
+    out = set()
+    while work:
+        b = work.pop()
+        if b in seen:
+            continue
+        seen.add(b)
+        out.add(b)
+        t = blocks[b]['t']
+        if t[0] == 'switch':
+            pl = t[1].get('copy') or t[1].get('move')
+            if pl and not pl['p'] and pl['l'] in fixed:
+                v = fixed[pl['l']]
+                work.append(next((tg for x, tg in t[2] if x == v), t[3]))
+                continue
+            work.extend([tg for _, tg in t[2]] + [t[3]])
+        elif t[0] == 'goto':
+            work.append(t[1])
+        elif t[0] == 'call' and t[1].get('target') is not None:
+            work.append(t[1]['target'])
+        elif t[0] == 'assert':
+            work.append(t[4])
+        elif t[0] == 'drop':
+            work.append(t[2])
+    return out
